@@ -150,13 +150,15 @@ HEAD = {"plain": "import mappyfile",
 
 
 # ----------------------------------------------------------------------------- update
-def check_update(ck, case, variant, d1=None, origin="enum"):
+def check_update(ck, case, variant, d1=None, origin="enum", follow=True, earlier_patches=None, keep=None):
     """run one (d1, d2, ow) case; returns the object the real update returned (None after a violation)"""
     v2 = "mapfile" if variant == "mapfile2" else "plain"
     v1 = "mapfile" if variant.startswith("mapfile") else "plain"
     if d1 is None:
         d1 = build(case["d1"], v1)
     d2 = build(case["d2"], v2)
+    if keep is not None:
+        keep.append((case["d2"], d2))
     ow = case["ow"]
     ck.count()
     repro = [HEAD["mapfile" if "mapfile" in (v1, v2) else "plain"],
@@ -183,6 +185,35 @@ def check_update(ck, case, variant, d1=None, origin="enum"):
     if df:
         ck.violation("C18|update|%s|d2-mutated" % variant, "the patch dictionary was changed at %s: %s" % (list(df[0]), df[2]), info)
         return None
+    for earlier_spec, earlier in earlier_patches or ():
+        df = diff(earlier_spec, earlier)
+        if df:
+            ck.violation("C18|update|%s|earlier-patch-changed-by-later-update" % variant,
+                         "a patch used in an earlier call was changed at %s by this call: %s" % (list(df[0]), df[2]), info)
+            return None
+    then = case.get("then")
+    if follow and then and then.get("t") == "update":
+        # second call on the returned object, about the object the first patch introduced
+        d3 = build(then["d2"], v2)
+        info2 = dict(info, python=repro[:2] + ["d1 = mappyfile.update(d1, d2%s); mappyfile.update(d1, %s); print(d1, d2)   # contract: d2 unchanged"
+                                               % ("" if ow else ", overwrite=False", py(then["d2"], v2))])
+        ck.count()
+        try:
+            res2 = impl.dictutils.update(res, d3)
+        except Exception as ex:  # noqa: BLE001
+            ck.violation("C18|update|%s|follow-up|raised-%s" % (variant, type(ex).__name__), "follow-up update raised %s" % ex, info2)
+            return None
+        df = diff(then["res"], res2)
+        if df:
+            ck.violation("C18|update|%s|follow-up|%s|%s" % (variant, rule_at(then["d2"], df[0]), df[1]),
+                         "result of the follow-up update differs from the contract at %s: %s" % (list(df[0]), df[2]), info2)
+            return None
+        df = diff(case["d2"], d2)
+        if df:
+            ck.violation("C18|update|%s|follow-up|first-patch-changed" % variant,
+                         "updating the result changed the dictionary used as the first patch at %s: %s (the result shares "
+                         "objects with the patch)" % (list(df[0]), df[2]), info2)
+            return None
     return res
 
 
@@ -395,8 +426,9 @@ def work(args):
             ck.nontrivial(json.dumps([c["d2"] for c in h], sort_keys=True))
             variant = ("plain", "mapfile", "mapfile2")[j % 3]
             d1 = None
+            used = []                        # (spec value, real object) of every patch of this history
             for c in h:
-                d1 = check_update(ck, c, variant, d1=d1, origin="history")
+                d1 = check_update(ck, c, variant, d1=d1, origin="history", follow=False, earlier_patches=list(used), keep=used)
                 if d1 is None:
                     break
     return {"tlc": s, "cov": cov, "violations": ck.violations, "known": ck.known_hits, "n": ck.evaluations,
